@@ -182,13 +182,13 @@ func entry(fn *ssa.Function) point    { return point{fn.Blocks[0], 0} }
 // avoid". edgeOK can prune successor edges (e.g. error edges, infeasible arms).
 // reachExit: function exits (Return / Panic) count as targets.
 type pathQuery struct {
-	from     point
-	target   func(ssa.Instruction) bool
-	avoid    func(ssa.Instruction) bool
-	edgeOK   func(from *ssa.BasicBlock, succ int) bool
-	exitIs   bool // a Return counts as target
-	panicIs  bool // a Panic counts as target (default: panics end the path silently)
-	stopAt   func(ssa.Instruction) bool // path ends silently here (neither found nor continued)
+	from    point
+	target  func(ssa.Instruction) bool
+	avoid   func(ssa.Instruction) bool
+	edgeOK  func(from *ssa.BasicBlock, succ int) bool
+	exitIs  bool                       // a Return counts as target
+	panicIs bool                       // a Panic counts as target (default: panics end the path silently)
+	stopAt  func(ssa.Instruction) bool // path ends silently here (neither found nor continued)
 }
 
 // existsPath runs the query; when found it returns the witness instruction. Conditions
@@ -376,13 +376,86 @@ func typeIs(t types.Type, pkgSuffix, name string) bool {
 	return p == pkgSuffix || strings.HasSuffix(p, "/"+pkgSuffix)
 }
 
-// fieldName returns the name of field i of the struct behind t.
+// canonFields: the unexported structs the rules talk about, with the field names used in
+// the rules (the names at the pinned commit) and their types. fieldName maps the fields of
+// the analysed tree onto these names — by equal name first, then by type (in declaration
+// order among fields of the same type) — so that renaming an unexported field, or
+// reordering fields, does not change any term.
+var canonFields = map[string][][2]string{
+	"emitter.chunk":                {{"id", "int"}, {"returnID", "int"}, {"useEndTerminator", "bool"}, {"statements", "[]ast.Statement"}, {"branchBehavior", "emitter.brancher"}},
+	"emitter.conditionDestination": {{"id", "int"}, {"operatorExpression", "*ast.OperatorExpression"}},
+	"emitter.jump":                 {{"destChunkID", "int"}},
+	"emitter.breakContext":         {{"destChunkID", "int"}},
+	"emitter.leafExpressionBranch": {{"truthyDest", "*emitter.conditionDestination"}, {"falseyReturnID", "int"}, {"preambleStatement", "*ast.CommandStatement"}},
+	"emitter.switchCaseBranch":     {{"comparisonValue", "token.Token"}, {"destChunkID", "int"}},
+	"emitter.switchBranch":         {{"operand", "token.Token"}, {"cases", "[]*emitter.switchCaseBranch"}, {"defaultCase", "*emitter.switchCaseBranch"}, {"destChunkID", "int"}},
+	"emitter.Emitter":              {{"program", "*ast.Program"}, {"optimize", "bool"}, {"enableLineMarkers", "bool"}, {"inputFilepath", "string"}},
+	"parser.impMovement":           {{"command", "*ast.CommandStatement"}, {"argPos", "int"}, {"movements", "[]token.Token"}, {"scriptName", "string"}},
+	"parser.impText":               {{"command", "*ast.CommandStatement"}, {"argPos", "int"}, {"text", "token.Token"}, {"stringType", "string"}, {"scriptName", "string"}},
+	"parser.impData":               {{"texts", "[]parser.impText"}, {"movements", "[]parser.impMovement"}},
+	"parser.textKey":               {{"value", "string"}, {"strType", "string"}},
+	"parser.Parser": {{"l", "*lexer.Lexer"}, {"curToken", "token.Token"}, {"peekToken", "token.Token"}, {"peek2Token", "token.Token"}, {"peek3Token", "token.Token"}, {"peek4Token", "token.Token"},
+		{"implicitData", "parser.impData"}, {"inlineTexts", "[]ast.Text"}, {"inlineTextsSet", "map[parser.textKey]string"}, {"inlineTextCounts", "map[string]int"},
+		{"inlineMovements", "[]*ast.MovementStatement"}, {"inlineMovementsSet", "map[string]string"}, {"inlineMovementCounts", "map[string]int"}, {"textStatements", "[]*ast.TextStatement"},
+		{"breakStack", "[]ast.Statement"}, {"continueStack", "[]ast.Statement"}, {"commandConfig", "parser.CommandConfig"}, {"fontConfigFilepath", "string"}, {"defaultFontID", "string"},
+		{"fonts", "*parser.FontConfig"}, {"maxLineLength", "int"}, {"compileSwitches", "map[string]string"}, {"constants", "map[string]string"}, {"enableEnvironmentErrors", "bool"}},
+	"lexer.Lexer": {{"input", "string"}, {"position", "int"}, {"readPosition", "int"}, {"ch", "rune"}, {"lineNumber", "int"}, {"prevCharNumber", "int"}, {"charNumber", "int"},
+		{"prevUtf8CharNumber", "int"}, {"utf8CharNumber", "int"}, {"queuedTokens", "[]token.Token"}},
+}
+
+var canonCache = map[*types.Struct][]string{}
+
+func canonNames(n *types.Named, st *types.Struct) []string {
+	if c, ok := canonCache[st]; ok {
+		return c
+	}
+	out := make([]string, st.NumFields())
+	for i := range out {
+		out[i] = st.Field(i).Name()
+	}
+	key := ""
+	if n != nil && n.Obj() != nil && n.Obj().Pkg() != nil {
+		key = n.Obj().Pkg().Name() + "." + n.Obj().Name()
+	}
+	canon, ok := canonFields[key]
+	if ok {
+		usedCanon := make([]bool, len(canon))
+		mapped := make([]bool, len(out))
+		// 1. equal names
+		for i := range out {
+			for j, cf := range canon {
+				if !usedCanon[j] && cf[0] == out[i] {
+					usedCanon[j], mapped[i] = true, true
+					break
+				}
+			}
+		}
+		// 2. by type, in declaration order among the remaining fields of that type
+		for i := range out {
+			if mapped[i] {
+				continue
+			}
+			ts := shortType(st.Field(i).Type())
+			for j, cf := range canon {
+				if !usedCanon[j] && cf[1] == ts {
+					out[i] = cf[0]
+					usedCanon[j], mapped[i] = true, true
+					break
+				}
+			}
+		}
+	}
+	canonCache[st] = out
+	return out
+}
+
+// fieldName returns the (canonical) name of field i of the struct behind t.
 func fieldName(t types.Type, i int) string {
 	st, ok := deref(t).Underlying().(*types.Struct)
 	if !ok || i >= st.NumFields() {
 		return "?"
 	}
-	return st.Field(i).Name()
+	return canonNames(namedOf(t), st)[i]
 }
 
 // fieldAddrOf: if v is &x.f return (x, structType, fieldName).
